@@ -399,7 +399,9 @@ variable [Scalar α]
 
 /-- the computation shared by `product2Raw` and `product3Raw` once the three cell tables are built -/
 def rawOf {N : Nat} (p a bb : Tab α N) : Opinion α N :=
-  let u := Tab.reduceMin (Vector.ofFn fun k : Fin N => (p[k] - bb[k]) / a[k])
+  let u := Tab.reduceL Scalar.min
+    (((List.finRange N).filter fun k => Scalar.gt a[k] Scalar.zero).map fun k => (p[k] - bb[k]) / a[k])
+    (Tab.nanOf α)
   let b : Tab α N := Vector.ofFn fun k => p[k] - a[k] * u
   ⟨b, u, a⟩
 
@@ -960,7 +962,9 @@ theorem rawOf_perm {N : Nat} (τ : Equiv.Perm (Fin N)) (p a bb : Tab (XQ f) N) :
     rawOf (permT τ p) (permT τ a) (permT τ bb) = permO τ (rawOf p a bb) := by
   unfold rawOf
   simp only []
-  rw [reduceMin_congr τ (g := fun k => (p[k] - bb[k]) / a[k]) (fun k => by simp)]
+  rw [reduceL_filter_congr Scalar.min xq_min_comm xq_min_assoc τ
+    (p := fun k => Scalar.gt a[k] Scalar.zero) (g := fun k => (p[k] - bb[k]) / a[k])
+    (fun k => by rw [permT_getElem]) (fun k => by simp only [permT_getElem])]
   simp only [permO, Opinion.mk.injEq, and_true]
   exact ofFn_eq_permT τ (fun k => by simp)
 
